@@ -59,6 +59,7 @@ type DocSpec struct {
 
 	TextOps  int  `json:"text_ops"`  // 0 Tj only, 1 TJ arrays, 2 mixed incl. Tm / T* positioning
 	FormXObj bool `json:"form_xobj"` // some lines live in a Form XObject
+	ForwardPrev bool `json:"forward_prev,omitempty"` // first revision laid out like a linearized file: a first xref section whose /Prev points forward
 	GState   bool `json:"gstate,omitempty"` // the program relies on the graphics state: Tf only when the font changes, lines inside q ... Q change it, what follows Q counts on the restore
 	Running  int  `json:"running,omitempty"` // this many header pieces and footer pieces repeated on every page
 	Bulk     int  `json:"bulk,omitempty"` // this many unreferenced objects: cross-reference data longer than a read buffer
@@ -274,7 +275,7 @@ func (d *docState) commit(set map[int]Obj, rev int) []byte { return d.commitFree
 func (d *docState) commitFree(set map[int]Obj, free []int, rev int) []byte {
 	sp := d.spec
 	rs := RevSpec{Set: set, Free: free, ObjStms: sim.MaxInt(1, sp.ObjStmN), ObjStmFlate: sp.ObjStmZ, XRefFlate: sp.XRefZ,
-		WidePad: sp.WidePad, SplitXRef: sp.SplitXRef}
+		WidePad: sp.WidePad, SplitXRef: sp.SplitXRef, ForwardPrev: sp.ForwardPrev && rev == 0}
 	if rev < len(sp.XRef) {
 		rs.XRefStream = sp.XRef[rev] == 1
 	}
